@@ -612,6 +612,8 @@ pub struct SwarmSys<B: NetworkBehaviour> {
     pub log_pos: usize,
     pub ev_pos: usize,
     pub swarm_polls: u64,
+    /// tasks the scheduler currently starves (executor not running them): never polled
+    pub frozen: Vec<usize>,
 }
 
 impl<B: NetworkBehaviour> SwarmSys<B>
@@ -647,6 +649,7 @@ where
             log_pos: 0,
             ev_pos: 0,
             swarm_polls: 0,
+            frozen: Vec::new(),
         }
     }
 
@@ -706,7 +709,9 @@ where
             cands.push(None);
         }
         for t in self.tasks.runnable() {
-            cands.push(Some(t));
+            if !self.frozen.contains(&t) {
+                cands.push(Some(t));
+            }
         }
         if cands.is_empty() {
             return false;
@@ -728,7 +733,7 @@ where
 
     pub fn has_runnable(&mut self) -> bool {
         self.adopt_spawned();
-        self.swarm_flag.0.load(SeqCst) || !self.tasks.runnable().is_empty()
+        self.swarm_flag.0.load(SeqCst) || self.tasks.runnable().iter().any(|t| !self.frozen.contains(t))
     }
     /// was the last scheduling step a poll of the Swarm itself?
     pub fn last_was_swarm(&self) -> bool {
